@@ -167,7 +167,7 @@ class Run:
     def __init__(self):
         self.rc = None; self.ops = {}; self.groups = []; self.abs = []; self.final = None; self.finalget = None
         self.reopen = None; self.joined = None; self.closed = False; self.done = None; self.stuck = []
-        self.raw_tail = ''; self.wall = 0.0; self.stderr = ''; self.timeout = False
+        self.raw_tail = ''; self.wall = 0.0; self.stderr = ''; self.timeout = False; self.backups = []
 
 def parse_scan(s):
     """'k=tag:len,k=tag:len status=0' -> (dict key -> (tag, len), status)"""
@@ -218,6 +218,9 @@ def parse_output(run, out):
             a = ln.split(' ', 4)
             o = run.ops.get((int(a[1]), int(a[2])))
             if o is not None: o.ret = int(a[3]); o.res = a[4] if len(a) > 4 else ''
+        elif c == 'B' and ln.startswith('BACKUP '):
+            a = ln.split(' ', 4)
+            run.backups.append({'tid': int(a[1]), 'opid': int(a[2]), 'rc': int(a[3].split('=')[1]), 'scan': a[4] if len(a) > 4 else ''})
         elif c == 'R' and ln.startswith('REOPEN'):
             run.reopen = ln[7:]
         elif c == 'G' and ln.startswith('GRP '):
@@ -648,6 +651,52 @@ def check_final(run, sc):
                 problems.append({'kind': 'final-get-differs-from-final-scan', 'key': k, 'get': val, 'scan': d.get(k)})
     return problems
 
+def check_backups(run, sc, stats):
+    """C20 under concurrency: every ldb_backup that returned OK must be an openable database whose contents are the
+    state of the source at ONE point of the publish order between the backup's invocation and its return: after all
+    the groups every member of which had returned before the backup was invoked, and before any group every member
+    of which was invoked after the backup returned."""
+    problems = []
+    if not run.backups: return problems
+    seqmap = []      # per group: list of (op, entries)
+    for g in run.groups:
+        mem = []
+        for (t, o, cnt) in g['members']:
+            op = run.ops.get((t, o))
+            if op is None: mem = None; break
+            mem.append(op)
+        if mem is None: return problems          # incomplete trace: judged by the other oracles
+        seqmap.append(mem)
+    # states after each prefix of groups
+    states = [dict()]
+    cur = {}
+    for mem in seqmap:
+        for op in mem:
+            for (k, tag, ln) in (write_entries(op) or []):
+                if tag is None: cur.pop(k, None)
+                else: cur[k] = (tag, ln)
+        states.append(dict(cur))
+    for b in run.backups:
+        op = run.ops.get((b['tid'], b['opid']))
+        if op is None or op.ret is None: continue
+        stats['backups_checked'] = stats.get('backups_checked', 0) + 1
+        if b['rc'] != 0:
+            problems.append({'kind': 'backup-does-not-open', 'backup_op': (b['tid'], b['opid']), 'open_rc': b['rc'],
+                             'detail': 'ldb_backup returned OK while other threads were writing / compacting, but the backup directory does not open'})
+            continue
+        got, st = parse_scan(b['scan'])
+        if st != 0:
+            problems.append({'kind': 'backup-does-not-open', 'backup_op': (b['tid'], b['opid']), 'detail': 'scan of the backup ended with status %s' % st}); continue
+        pmin = 0; pmax = len(seqmap)
+        for i, mem in enumerate(seqmap):
+            if all(m.ret is not None and m.ret < op.inv for m in mem): pmin = max(pmin, i + 1)
+        for i, mem in enumerate(seqmap):
+            if all(m.inv > op.ret for m in mem): pmax = min(pmax, i); break
+        if not any(states[p] == got for p in range(pmin, max(pmin, pmax) + 1)):
+            problems.append({'kind': 'backup-contents-not-a-point-in-time', 'backup_op': (b['tid'], b['opid']), 'prefix_range': [pmin, pmax],
+                             'backup': {k: v for k, v in sorted(got.items())[:30]}})
+    return problems
+
 def check_group_sync(run, sc, stats):
     """C02 under group commit: a group that contains a sync=1 writer must be followed by an fsync of the
     write-ahead log before the next group is built (only the leader of a group touches the log, so the log
@@ -704,6 +753,7 @@ def check_c08_run(run, sc, stats):
     problems += check_batches_blackbox(run, sc, lin['views'], stats)
     problems += check_monotone_reads(run, lin, stats)
     problems += check_final(run, sc)
+    problems += check_backups(run, sc, stats)
     return problems
 
 def check_liveness(run, sc, faults=False):
